@@ -15,7 +15,7 @@
   Modelled as coded: the pre-order walk (a record's own warnings, then those of its DATE
   descendants), `Birth()` = first DATE of the first dated BIRT, `EstimatedBirthDate/DeathDate` =
   `DateNodes.Minimum()` over *all* dates (an unparsable one has `Years() = 0` and wins),
-  `time.Time.Sub` with its saturation, `NewDuration`'s negation (which wraps at the minimum),
+  `time.Time.Sub` with its saturation, `NewDuration`'s negation (saturating at the maximum),
   the sibling loop with its pair set, `AgeAt` on the range of the valid dates of a MARR node.
   Modelled, not verified: float64 (`Years()` is an exact fraction, `Age.Years()` an exact
   quotient; for whole-day differences the Go float comparison against 16 / 100 is exact),
@@ -223,8 +223,13 @@ def minDur : Int := -9223372036854775808
 def timeSub (a b : Int) : Int :=
   if a - b > maxDur then maxDur else if a - b < minDur then minDur else a - b
 
-/-- `NewDuration`: `if duration < 0 { duration = -duration }` on an int64 -/
-def durAbs (x : Int) : Int := if x < 0 then (if x = minDur then minDur else -x) else x
+/-- `NewDuration`: `if duration < 0 { duration = -duration; if duration < 0 { duration = MaxInt64 } }`
+    on an int64: the absolute value, saturating at the maximum (the minimum has no positive
+    counterpart; fixes/C20-duration-saturates.patch) -/
+def durAbs (x : Int) : Int := if x < 0 then (if x = minDur then maxDur else -x) else x
+
+/-- the rule before the repair: `duration = -duration` alone leaves the minimum negative -/
+def durAbsOld (x : Int) : Int := if x < 0 then (if x = minDur then minDur else -x) else x
 
 /-- `Date.Sub(...).Duration` -/
 def dateSub (a b : Int) : Int := durAbs (timeSub a b)
